@@ -46,7 +46,8 @@ def decode_actions(n, l):
     return acts, l[i:]
 
 
-def make_port(autoreset, echo, script, state):
+def make_port(autoreset, echo, script, state, faults=()):
+    faults = list(faults)
     import mido.ports as ports
 
     base = ports.EchoPort if echo else ports.BaseIOPort
@@ -61,7 +62,10 @@ def make_port(autoreset, echo, script, state):
             state['closes'] += 1
 
         def _send(self, msg):
+            if faults and faults.pop(0):
+                raise OSError('device fault')
             if echo:
+                state['taken'].append(msgid(msg))
                 return base._send(self, msg)
             state['sent'].append(msgid(msg))
 
@@ -75,11 +79,13 @@ def make_port(autoreset, echo, script, state):
                 return None
             a = script.pop(0)
             if a[0] == 'msg':
+                state['taken'].append(a[1])
                 return mkmsg(a[1])
             if a[0] == 'nothing':
                 return None
             if a[0] in ('push', 'pushclose'):
                 for i in a[1]:
+                    state['taken'].append(i)
                     self._messages.append(mkmsg(i))
             if a[0] in ('close', 'pushclose'):
                 self.close()
@@ -87,12 +93,23 @@ def make_port(autoreset, echo, script, state):
     return Dev('dev', autoreset=bool(autoreset))
 
 
+def ops_kinds(ops):
+    ks, i = [], 0
+    while i < len(ops):
+        ks.append(ops[i])
+        i += 2 if ops[i] in (0, 1, 4, 6) else 1
+    return ks
+
+
 def impl_port(case):
     import mido.ports as ports
-    ar, echo, fuel, ns = case[:4]
-    script, ops = decode_actions(ns, case[4:])
-    state = {'sleeps': 0}
-    port = make_port(ar, echo, script, state)
+    ar, echo, fuel, nf = case[:4]
+    faults = case[4:4 + nf]
+    ns = case[4 + nf]
+    script, ops = decode_actions(ns, case[5 + nf:])
+    state = {'sleeps': 0, 'taken': []}
+    delivered = []
+    port = make_port(ar, echo, script, state, faults)
     per_call = {'n': 0}
 
     def fake_sleep():
@@ -126,10 +143,15 @@ def impl_port(case):
                     if per_call['n'] > 0 and fail is None:
                         fail = ('nonblocking-slept', 'poll slept %d times' % per_call['n'])
                 elif k == 3:
-                    ms = [msgid(m) for m in port.iter_pending()]; res = [2, len(ms)] + ms
+                    ms = []
+                    for m in port.iter_pending():
+                        ms.append(msgid(m)); delivered.append(msgid(m))
+                    res = [2, len(ms)] + ms
                 elif k == 4:
                     lim = arg
-                    ms = [msgid(m) for m in (itertools.islice(iter(port), lim) if lim >= 0 else iter(port))]
+                    ms = []
+                    for m in (itertools.islice(iter(port), lim) if lim >= 0 else iter(port)):
+                        ms.append(msgid(m)); delivered.append(msgid(m))
                     res = [2, len(ms)] + ms
                 elif k == 5:
                     port.close(); res = [0]
@@ -137,8 +159,10 @@ def impl_port(case):
                     with port:
                         port.send(mkmsg(arg))
                     res = [0]
-                else:
+                elif k == 7:
                     port.__del__(); res = [0]
+                else:
+                    port.reset(); res = [0]
             except Hang:
                 res = [3, 13]
                 if fail is None and (k in (1, 2, 3, 4)):
@@ -153,7 +177,7 @@ def impl_port(case):
                 if fail is None:
                     if k == 4:
                         fail = ('iteration-raises:' + type(e).__name__, 'iteration over the port raised %r (closed before: %r, queued before: %r)' % (e, closed_before, q_before))
-                    elif k == 0 and not (closed_before and isinstance(e, ValueError)):
+                    elif k in (0, 6, 8) and not (closed_before and isinstance(e, ValueError)) and not (isinstance(e, OSError) and str(e) == 'device fault'):
                         fail = ('send-raises', 'send raised %r' % (e,))
                     elif k in (5, 7):
                         fail = ('close-raises', 'close raised %r' % (e,))
@@ -163,13 +187,23 @@ def impl_port(case):
                 fail = ('closed-twice', 'the device was released %d times' % state['closes'])
             if fail is None and port.closed and state['closes'] != 1:
                 fail = ('close-without-release', 'the port is closed but the device was released %d times' % state['closes'])
+            # nothing the port has taken in is lost, duplicated or reordered: handed out ++ still queued == taken in
+            if res[0] == 1 and res[1] >= 0:
+                delivered.append(res[1])
+            q_after = [msgid(m) for m in port._messages]
+            if fail is None and delivered + q_after != state['taken']:
+                fail = ('lost-or-reordered', 'taken in %r but handed out %r with %r still queued' % (state['taken'], delivered, q_after))
+            # ... and a call that hands out nothing (None, an exception, the end of an iteration) leaves nothing behind
+            if fail is None and q_after and res != [3, 13] and ((k in (1, 2) and res[0] != 1) or (k in (1, 2) and res == [1, -1]) or k == 3
+                                                                or (k == 4 and (arg < 0 or res[0] != 2 or len(res) - 2 < arg))):
+                fail = ('drain', 'operation %d ended with %r while %r was still queued (closed: %r)' % (k, res, q_after, port.closed))
             if fail is None and closed_before and k in (1, 2, 3, 4) and q_before:
                 got = res[2:] if res[0] == 2 else ([res[1]] if res[0] == 1 and res[1] >= 0 else [])
                 if got != q_before[:len(got)] or (k in (3,) and got != q_before) or (k == 4 and arg < 0 and got != q_before):
                     fail = ('drain', 'a closed port holding %r handed out %r' % (q_before, got))
             out += res + [1 if port.closed else 0, state['closes'], state['sleeps'], state['calls'], len(state['sent']), len(port._messages), -9]
         out += [len(state['sent'])] + state['sent'] + [len(port._messages)] + [msgid(m) for m in port._messages]
-        if fail is None and ar and not echo and port.closed:
+        if fail is None and ar and not echo and port.closed and not any(faults) and 8 not in ops_kinds(ops):
             rs = [x for x in state['sent'] if x >= 1000]
             if rs != [1000 + j for j in range(32)] or state['sent'][-32:] != rs:
                 fail = ('autoreset', 'autoreset: reset messages on the device: %r' % (rs,))
@@ -251,7 +285,7 @@ def run(out):
         uid[0] += 1
         return uid[0] % 900 + 1
     ACTIONS = lambda: [('msg', fresh()), ('nothing',), ('push', [fresh(), fresh()]), ('push', [fresh()]), ('close',), ('pushclose', [fresh()])]
-    OPS = [[0, 7], [1, 1], [1, 0], [2], [3], [4, -1], [4, 1], [5], [6, 9], [7]]
+    OPS = [[0, 7], [1, 1], [1, 0], [2], [3], [4, -1], [4, 1], [5], [6, 9], [7], [8]]
     cases = []
     # all op sequences of length <= 3 over the operations x scripts of length <= 2 (quick); longer random ones on top
     scripts = [[]] + [[a] for a in ACTIONS()] + [[a, b] for a in ACTIONS() for b in ACTIONS()]
@@ -263,7 +297,7 @@ def run(out):
                 for ar, echo in ((0, 0), (1, 0), (0, 1)):
                     if (ar, echo) != (0, 0) and rng.random() > 0.25:
                         continue
-                    c = [ar, echo, FUEL, len(script)]
+                    c = [ar, echo, FUEL, 0, len(script)]
                     for a in script:
                         c += enc_action(a)
                     for o in ops:
@@ -272,7 +306,10 @@ def run(out):
     for _ in range(3000 if out.tier == 'quick' else 30000):
         script = [rng.choice(ACTIONS()) for _ in range(rng.randrange(0, 6))]
         ops = [rng.choice(OPS) for _ in range(rng.randrange(1, 26 if out.tier == 'thorough' else 10))]
-        c = [rng.choice([0, 0, 1]), rng.choice([0, 0, 0, 1]), FUEL, len(script)]
+        faults = [int(rng.random() < 0.3) for _ in range(rng.randrange(0, 4))] if rng.random() < 0.4 else []
+        if rng.random() < 0.15:
+            faults = [0] * rng.randrange(0, 34) + [1]
+        c = [rng.choice([0, 0, 1]), rng.choice([0, 0, 0, 1]), FUEL, len(faults)] + faults + [len(script)]
         for a in script:
             c += enc_action(a)
         for o in ops:
@@ -281,11 +318,17 @@ def run(out):
     # blocking receive returns as soon as a message is deliverable: first delivery at the k-th _receive call
     for k in range(1, 6):
         for deliver in (('msg', 5), ('push', [5, 6]), ('pushclose', [5])):
-            c = [0, 0, 8, k]
+            c = [0, 0, 8, 0, k]
             for _ in range(k - 1):
                 c += [1]
             c += enc_action(deliver) + [1, 1]
             cases.append(c)
+    # the device fails at its j-th _send: during the reset of an autoreset close, in a with-block, during reset()
+    for j in range(0, 34):
+        faults = [0] * j + [1]
+        for ar in (0, 1):
+            for ops in ([5, 5], [6, 9, 5], [8, 5, 5], [0, 3, 5], [0, 3, 0, 4, 7, 5]):
+                cases.append([ar, 0, FUEL, len(faults)] + faults + [0] + ops)
     multis = []
     for _ in range(400 if out.tier == 'quick' else 4000):
         ns = rng.randrange(0, 4)
